@@ -260,19 +260,25 @@ class MosCollection:
         Check a single roCreate is present, and if *allow_incomplete* is True,
         also check a single roDelete is present.
         """
+        def check(condition: bool, msg: str):
+            # not an assert statement: those are removed by python -O
+            if not condition:
+                raise InvalidMosCollection(f"Failed to validate MosCollection: {msg}")
+
+        check(len(self.mos_readers) > 0, "no MOS files given")
         ro_id = self.mos_readers[0].ro_id
-        assert all(mr.ro_id == ro_id for mr in self.mos_readers), "Mixed RO IDs found"
+        check(all(mr.ro_id == ro_id for mr in self.mos_readers), "Mixed RO IDs found")
         ro_creates = [
             mr for mr in self.mos_readers if mr.mos_type == RunningOrder
         ]
-        assert len(ro_creates) == 1, f"{len(ro_creates)} roCreates found"
-        self._ro = ro_creates[0].mos_object
+        check(len(ro_creates) == 1, f"{len(ro_creates)} roCreates found")
         ro_deletes = [
             mr for mr in self.mos_readers if mr.mos_type == RunningOrderEnd
         ]
-        assert len(ro_deletes) < 2, f"{len(ro_deletes)} roDeletes found"
+        check(len(ro_deletes) < 2, f"{len(ro_deletes)} roDeletes found")
         if not allow_incomplete:
-            assert len(ro_deletes) == 1, f"{len(ro_deletes)} roDeletes found"
+            check(len(ro_deletes) == 1, f"{len(ro_deletes)} roDeletes found")
+        self._ro = ro_creates[0].mos_object
         self._mos_readers = [
             mr for mr in self.mos_readers if mr.mos_type != RunningOrder
         ]
